@@ -445,7 +445,7 @@ def _deep_stack():
 
 NEEDED_KINDS = ["ast", "chain", "alias", "extras", "delete", "replace", "duplicate", "swap", "truncate", "insert",
                 "unknown_profile", "extender_profile", "unknown_category", "duplicate_rule", "duplicate_alias",
-                "alias_name_clash", "alias_as_rule_name", "repeated_operand", "repeated_option", "missing_section",
+                "alias_name_clash", "alias_as_rule_name", "repeated_operand", "repeated_option", "nested_in_cds", "missing_section",
                 "unbalanced_group", "no_positive", "superior_undefined", "superior_duplicated", "trailing_not", "empty_input"]
 
 
